@@ -66,6 +66,7 @@ func RunOne(F *VFuncs, c Config, strat vsched.Strategy, por bool) (*Exec, error)
 			ex.Bad = append(ex.Bad, CheckLogC19(c, ex.Log)...)
 		}
 	}
+	ex.Bad = MutateNote(c, ex.Bad)
 	return ex, nil
 }
 
@@ -422,6 +423,11 @@ func (r *runner) plan(sys string, thorough bool, rng *rand.Rand) error {
 			if err := r.random(c, 4, rng); err != nil {
 				return err
 			}
+		}
+	}
+	if sys == "joinsc" { // the caller overwrites its list right after the call
+		if err := each(MutateConfigs(), por, true); err != nil {
+			return err
 		}
 	}
 	// (c) random deeper configurations, random schedules
